@@ -247,7 +247,7 @@ def _expand_combinator(prog, t, locals_, blocks, b, file_):
     s_l = nl(scr_ty)
     d_l = nl({"t": "isize", "k": "prim"})
     # closure receiver: by value, or by reference if the body takes `&self` / `&mut self`
-    recv_ty = g.locals[1] if g is not None else {"t": "?"}
+    recv_ty = g.locals[1] if g is not None and fitem is None and len(g.locals) > 1 else {"t": "?"}
     pre = []
     recv = None
     if g is None or fitem is not None:
